@@ -10,9 +10,16 @@ var vAddrs = []net.IP{net.IPv4(10, 0, 0, 1), net.IPv4(10, 0, 0, 2), net.IPv4(10,
 // with bound nat=1 every node's client-facing (rpc / connect) address differs from its node-to-node (peer) address
 var vNatAddrs = []net.IP{net.IPv4(192, 168, 0, 1), net.IPv4(192, 168, 0, 2), net.IPv4(192, 168, 0, 3)}
 
+// nat=2: the mapping from node-to-node address to client-facing address may differ between two reports
+// (vNatShift is chosen per report), so a node can change ONE of its two addresses and keep the other
+var vNatShift int
+
 func vConnectAddr(ad int) net.IP {
-	if vBound("nat") == 1 {
+	switch vBound("nat") {
+	case 1:
 		return vNatAddrs[ad]
+	case 2:
+		return vNatAddrs[(ad+vNatShift)%len(vNatAddrs)]
 	}
 	return vAddrs[ad]
 }
@@ -47,6 +54,9 @@ func vNewSession(rejected string) *Session {
 // vReport: n hosts with distinct ids and distinct addresses chosen by the environment
 func vReport(n int) []*HostInfo {
 	var out []*HostInfo
+	if vBound("nat") == 2 {
+		vNatShift = vChoose("nat_shift", 2)
+	}
 	usedID, usedAddr := map[int]bool{}, map[int]bool{}
 	for i := 0; i < n; i++ {
 		id := vChoose("id", len(vIDs))
